@@ -201,6 +201,13 @@ def run(prog, ctx):
             val_ok = v in rets and v[0] == "n"
             b = R.reaching_unique_def(cw, v[1], st.value) if v[0] == "n" else None
             val_ok = val_ok and b is not None and c.dominates(c.node_of(b.stmt), c.node_of(st))
+            if not val_ok:
+                # store-then-return-the-entry form:  cache[K] = <weights of this call>;  ...;  return cache[K]
+                entry = ("s", ("a", ("n", "self"), "weight_cache"), ("n", KEY)) if KEY is not None else None
+                sn_ = c.node_of(st)
+                after = [r for r in R.return_paths(cw)[0] if tm0.term(r.ast.value) == entry and sn_ is not None and r.idx in c.reachable_after(sn_)]
+                computed = v[0] != "c" and v != entry and not any(x[0] == "a" and x[2] == "weight_cache" for x in subterms(v))
+                val_ok = bool(after) and computed
     ctx.check(samekey and val_ok, "C11.D3", R.key_of(cw, "store-and-lookup-same-key"), cw.loc(),
               "the value computed in this call is stored and looked up under the same key",
               "the weight cache is not read and written under the same key / does not store the weights computed in this call")
@@ -355,6 +362,26 @@ def check_freshness(prog, ctx):
                       "the base weight stored for a leaf is computed from that leaf",
                       "`%s`: the base weight of a leaf does not depend on the leaf itself (on an unbalanced / partially refined tree leaves of "
                       "one extrapolation level have different step widths)" % src(st))
+    # the table filled at construction: dict / defaultdict(factory, <(key, value) for leaf in leaves>) or a dict comprehension
+    for st in [x for x in walk_local(bw.node) if isinstance(x, (ast.DictComp, ast.Call))]:
+        v_ = st
+        gens = []
+        if isinstance(v_, ast.DictComp) and len(v_.generators) == 1:
+            gens.append((v_.generators[0], v_.key, v_.value))
+        elif isinstance(v_, ast.Call) and isinstance(v_.func, ast.Name) and v_.func.id in ("dict", "defaultdict", "OrderedDict"):
+            for a_ in v_.args:
+                if isinstance(a_, (ast.GeneratorExp, ast.ListComp)) and len(a_.generators) == 1 and isinstance(a_.elt, ast.Tuple) and len(a_.elt.elts) == 2:
+                    gens.append((a_.generators[0], a_.elt.elts[0], a_.elt.elts[1]))
+        for (g_, k_, val_) in gens:
+            if not isinstance(g_.target, ast.Name):
+                continue
+            n += 1
+            leaf = g_.target.id
+            ok = any(isinstance(x, ast.Name) and x.id == leaf for x in ast.walk(k_)) and any(isinstance(x, ast.Name) and x.id == leaf for x in ast.walk(val_))
+            ctx.check(ok, "C11.D6", R.key_of(bw, "leaf-own-step-width"), bw.loc(st),
+                      "the base weight stored for a leaf is computed from that leaf",
+                      "`%s`: the base weight of a leaf does not depend on the leaf itself (on an unbalanced / partially refined tree leaves of "
+                      "one extrapolation level have different step widths)" % src(st)[:100])
     ctx.floor("C11.D6", n, 1, "base-weight stores of the balanced grid")
     # shallow copies of objects that own mutable containers
     hits = []
